@@ -6,6 +6,10 @@
 // per j in 1..J with "hook invocation j returns an error". Oracle after each faulted run:
 // the dump of ALL tables equals the pre-state, result.Error carries the injected sentinel,
 // no transaction is open at the driver and no connection is checked out.
+//
+// Dimensions of a case besides the operation: the entry handle (scopes returning sessions, CreateBatchSize), the
+// handle mode (plain / prepared statements by Config / by Session) with the history of the handle's statement
+// cache, and - second family, hk.go - the session a hook derives from its tx to write through.
 package c05
 
 import (
@@ -28,20 +32,24 @@ var H *vdb.Handle
 var pre string
 var ddl []string
 var crashSeq int
+var allModels = append(append([]interface{}{}, txm.AllModels...), hkModels...)
+var allTables = append(append([]string{}, txm.AllTables...), hkTables...)
+
+const seedSQL = txm.SeedSQL + hkSeedSQL
 
 func initEnv(c *core.Ctx) {
 	h, err := vdb.Open(vdb.Options{})
 	if err != nil {
 		panic(err)
 	}
-	if err := h.DB.AutoMigrate(txm.AllModels...); err != nil {
+	if err := h.DB.AutoMigrate(allModels...); err != nil {
 		panic(err)
 	}
 	H = h
 	// the first step of every result set is a fault point too (where SQLite reports what an INSERT ... RETURNING violates)
 	H.Rec.NextFaults = true
-	restore()
-	pre = vdb.Dump(H.SQL, txm.AllTables...)
+	restoreOn(H)
+	pre = vdb.Dump(H.SQL, allTables...)
 	rows, err := h.SQL.Query("SELECT sql FROM sqlite_master WHERE sql IS NOT NULL AND name NOT LIKE 'sqlite_%'")
 	if err != nil {
 		panic(err)
@@ -57,8 +65,10 @@ func initEnv(c *core.Ctx) {
 	txm.H.SetCols = true
 }
 
-func restore() {
-	if _, err := H.SQL.Exec(txm.SeedSQL); err != nil {
+func restore() { restoreOn(H) }
+
+func restoreOn(h *vdb.Handle) {
+	if _, err := h.SQL.Exec(seedSQL); err != nil {
 		panic(err)
 	}
 }
@@ -72,6 +82,8 @@ type runResult struct {
 	hookLog []txm.HookEvent
 	ctr     recdrv.Counters
 	inUse   int
+	// histErr: what the handle ran before the operation (no fault injected there) failed
+	histErr error
 }
 
 // execute runs op with an optional driver fault at call k (1-based) or hook fault at j.
@@ -80,33 +92,132 @@ type runResult struct {
 // be undone and finished whatever the value is.
 var causes = []error{nil, nil, context.Canceled, context.DeadlineExceeded, sql.ErrTxDone, gorm.ErrRecordNotFound, gorm.ErrInvalidTransaction, sql.ErrNoRows}
 
-func execute(op txm.Op, failCall, failHook int) runResult {
-	return executeCause(op, failCall, failHook, nil)
+// spec: how the handle the operation runs on was made and what that handle did before.
+type spec struct {
+	// prep: 0 = plain handle; 1 = gorm.Config{PrepareStmt: true}; 2 = plain handle, the operation starts from
+	// db.Session(&Session{PrepareStmt: true}). Preparing statements does not change what one operation is.
+	prep int
+	// warm (prepared-statement modes): what the handle ran BEFORE the operation, i.e. from where the statement
+	// cache knows the operation's SQL texts: 0 = nothing (first seen inside the implicit transaction);
+	// 1 = the same operation under Session{SkipDefaultTransaction: true} (texts prepared on the pool);
+	// 2 = the same operation in its default transaction (texts prepared by an earlier transaction);
+	// 3 = another operation of the family and plain reads under SkipDefaultTransaction (partial overlap)
+	warm int
+	// entry: how the handle the operation starts from was derived. A scope that hands back a new session (Session,
+	// WithContext; Debug does the same) is ordinary use: the operation is still one operation.
+	entry int
+	// hstyle / hform: second family only, see hk.go
+	hstyle, hform, hwho int
+	hmask               uint64
+	// fresh: every run of the case gets a new database handle with the same history (the statement cache is
+	// state of the handle: without this the k-th driver call of a faulted run would not be the k-th of the reference run)
+	fresh bool
+	hk    bool
 }
 
-// entry: how the handle the operation starts from was made. A scope that hands back a new session (Session,
-// WithContext; Debug does the same) is ordinary use: the operation is still one operation.
-var entry int
+var prepNames = []string{"", "Config{PrepareStmt:true}", "db.Session(&Session{PrepareStmt:true})"}
+var warmNames = []string{"cold", "same-op-under-SkipDefaultTransaction", "same-op-in-default-transaction", "other-op-and-reads-under-SkipDefaultTransaction"}
+var entryNames = []string{"", "db.Scopes(returns d.Session(&Session{}))", "db.Scopes(returns d.WithContext(ctx))", "db.Scopes(identity, returns d.Session(&Session{}))", "db.Session(&Session{CreateBatchSize:2})"}
 
-func entryHandle() *gorm.DB {
-	switch entry {
-	case 1:
-		return H.DB.Scopes(func(d *gorm.DB) *gorm.DB { return d.Session(&gorm.Session{}) })
-	case 2:
-		return H.DB.Scopes(func(d *gorm.DB) *gorm.DB { return d.WithContext(context.Background()) })
-	case 3:
-		return H.DB.Scopes(func(d *gorm.DB) *gorm.DB { return d }, func(d *gorm.DB) *gorm.DB { return d.Session(&gorm.Session{SkipHooks: false}) })
+// tag is the part of shapes and violation signatures that names the mode ("" for the plain, direct mode)
+func (s spec) tag() string {
+	var p []string
+	if s.prep != 0 {
+		p = append(p, "prep="+prepNames[s.prep], "history="+warmNames[s.warm])
 	}
-	return H.DB.Session(&gorm.Session{})
+	if s.hk {
+		p = append(p, "hook-writes-through="+hookStyles[s.hstyle]+hookForms[s.hform], "writing="+hookWhos[s.hwho])
+	}
+	if len(p) == 0 {
+		return ""
+	}
+	return "{" + strings.Join(p, ",") + "}"
 }
 
-func executeCause(op txm.Op, failCall, failHook int, cause error) runResult {
-	return executeCauseBare(op, failCall, failHook, cause, false)
+func (s spec) base(h *vdb.Handle) *gorm.DB {
+	if s.prep == 2 {
+		return h.DB.Session(&gorm.Session{PrepareStmt: true})
+	}
+	return h.DB
 }
 
-// bare: the failing hook returns the cause itself (no wrapper of the harness around it)
-func executeCauseBare(op txm.Op, failCall, failHook int, cause error, bare bool) runResult {
-	restore()
+func (s spec) entryHandle(h *vdb.Handle) *gorm.DB {
+	b := s.base(h)
+	switch s.entry {
+	case 1:
+		return b.Scopes(func(d *gorm.DB) *gorm.DB { return d.Session(&gorm.Session{}) })
+	case 2:
+		return b.Scopes(func(d *gorm.DB) *gorm.DB { return d.WithContext(context.Background()) })
+	case 3:
+		return b.Scopes(func(d *gorm.DB) *gorm.DB { return d }, func(d *gorm.DB) *gorm.DB { return d.Session(&gorm.Session{SkipHooks: false}) })
+	case 4:
+		return b.Session(&gorm.Session{CreateBatchSize: 2})
+	}
+	return b.Session(&gorm.Session{})
+}
+
+// openFresh opens a new database with the schema of H and the seeded rows.
+func openFresh(s spec) *vdb.Handle {
+	h, err := vdb.Open(vdb.Options{Config: gorm.Config{PrepareStmt: s.prep == 1}})
+	if err != nil {
+		panic(err)
+	}
+	for _, q := range ddl {
+		if _, err := h.SQL.Exec(q); err != nil {
+			panic(err)
+		}
+	}
+	h.Rec.NextFaults = true
+	return h
+}
+
+// history replays what the handle did before the operation under test (fault-free, hooks passive).
+func history(s spec, h *vdb.Handle, op txm.Op, other *txm.Op) error {
+	if s.warm == 0 {
+		return nil
+	}
+	restoreOn(h)
+	txm.ResetHooks()
+	skip := s.base(h).Session(&gorm.Session{SkipDefaultTransaction: true})
+	switch s.warm {
+	case 1:
+		return op.Run(skip).Error
+	case 2:
+		return op.Run(s.base(h).Session(&gorm.Session{})).Error
+	default:
+		if err := other.Run(skip).Error; err != nil {
+			return err
+		}
+		var us []txm.User
+		var as []Acct
+		if err := skip.Session(&gorm.Session{}).Preload("Orders").Find(&us).Error; err != nil {
+			return err
+		}
+		return skip.Session(&gorm.Session{}).Preload("Entries").Find(&as).Error
+	}
+}
+
+type run1 struct {
+	s     spec
+	op    txm.Op
+	other *txm.Op
+}
+
+func (x run1) execute(failCall, failHook int, cause error, bare bool) runResult {
+	h := H
+	if x.s.fresh {
+		h = openFresh(x.s)
+		defer h.Close()
+		if err := history(x.s, h, x.op, x.other); err != nil {
+			return runResult{histErr: err}
+		}
+	}
+	restoreOn(h)
+	if x.s.fresh {
+		if d := vdb.Dump(h.SQL, allTables...); d != pre {
+			panic("c05: a fresh database does not show the pre-state: " + diffDump(pre, d))
+		}
+	}
 	txm.ResetHooks()
 	txm.H.FailAt = failHook
 	txm.H.Cause = cause
@@ -114,25 +225,25 @@ func executeCauseBare(op txm.Op, failCall, failHook int, cause error, bare bool)
 	defer func() { txm.H.Cause, txm.H.Bare = nil, false }()
 	var count int64
 	if failCall > 0 {
-		H.Rec.SetHook(recdrv.FailNth(failCall, &recdrv.ErrInjected{At: fmt.Sprintf("driver call %d", failCall), Cause: cause}, &count))
+		h.Rec.SetHook(recdrv.FailNth(failCall, &recdrv.ErrInjected{At: fmt.Sprintf("driver call %d", failCall), Cause: cause}, &count))
 	} else {
-		H.Rec.SetHook(recdrv.FailNth(-1, nil, &count))
+		h.Rec.SetHook(recdrv.FailNth(-1, nil, &count))
 	}
-	mark := H.Rec.Mark()
-	res := op.Run(entryHandle())
-	H.Rec.SetHook(nil)
-	out := runResult{err: res.Error, rows: res.RowsAffected, events: H.Rec.Since(mark), hooks: txm.H.Count, hookLog: txm.H.Log}
+	mark := h.Rec.Mark()
+	res := x.op.Run(x.s.entryHandle(h))
+	h.Rec.SetHook(nil)
+	out := runResult{err: res.Error, rows: res.RowsAffected, events: h.Rec.Since(mark), hooks: txm.H.Count, hookLog: txm.H.Log}
 	txm.H.FailAt = 0
-	out.ctr = H.Rec.Counters()
-	out.inUse = H.SQL.Stats().InUse
-	out.dump = vdb.Dump(H.SQL, txm.AllTables...)
+	out.ctr = h.Rec.Counters()
+	out.inUse = h.SQL.Stats().InUse
+	out.dump = vdb.Dump(h.SQL, allTables...)
 	return out
 }
 
 // executeCrash runs op on a database file and lets the process "die" at faultable driver
 // call k: every connection is dropped without any clean-up statement (SQLite discards the
 // open transaction), later calls fail. The file is then reopened by a fresh handle and dumped.
-func executeCrash(c *core.Ctx, op txm.Op, k int) (after string, opErr error) {
+func executeCrash(c *core.Ctx, s spec, op txm.Op, k int) (after string, opErr error) {
 	crashSeq++
 	path := filepath.Join(c.Dir, fmt.Sprintf("c05crash_%d.db", crashSeq))
 	h, err := vdb.Open(vdb.Options{File: path})
@@ -144,14 +255,14 @@ func executeCrash(c *core.Ctx, op txm.Op, k int) (after string, opErr error) {
 			panic(err)
 		}
 	}
-	if _, err := h.SQL.Exec(txm.SeedSQL); err != nil {
+	if _, err := h.SQL.Exec(seedSQL); err != nil {
 		panic(err)
 	}
 	txm.ResetHooks()
 	var count int64
 	h.Rec.NextFaults = true
 	h.Rec.SetHook(recdrv.FailNth(k, recdrv.ErrCrash, &count))
-	res := op.Run(h.DB.Session(&gorm.Session{}))
+	res := op.Run(s.entryHandle(h))
 	opErr = res.Error
 	h.Rec.SetHook(nil)
 	h.SQL.Close()
@@ -161,7 +272,7 @@ func executeCrash(c *core.Ctx, op txm.Op, k int) (after string, opErr error) {
 	if err != nil {
 		panic(err)
 	}
-	after = vdb.Dump(h2.SQL, txm.AllTables...)
+	after = vdb.Dump(h2.SQL, allTables...)
 	h2.Close()
 	return
 }
@@ -202,22 +313,80 @@ func tableCounts(dump string) map[string]int {
 	return m
 }
 
+var allKinds = append(append([]string{}, txm.OpKinds...), hkKinds...)
+
+func genOp(kind string, seed uint64) txm.Op {
+	if isHk(kind) {
+		return hkGenOp(kind, seed)
+	}
+	return txm.GenOp(kind, seed)
+}
+
 func run(c *core.Ctx) {
-	kind := txm.OpKinds[c.Case%len(txm.OpKinds)]
-	entry = []int{0, 0, 1, 2, 3}[(c.Case/len(txm.OpKinds))%5]
-	defer func() { entry = 0 }()
+	kind := allKinds[c.Case%len(allKinds)]
+	round := c.Case / len(allKinds)
+	// two cycles of coprime length: every (entry, prep) pair comes up for every kind
+	s := spec{entry: []int{0, 0, 1, 2, 3, 4}[round%6], prep: []int{0, 1, 0, 2, 1}[round%5], hk: isHk(kind)}
 	seed := c.R.U64()
-	op := txm.GenOp(kind, seed)
-	if entry != 0 {
-		op.Desc += []string{"", " [from db.Scopes(returns d.Session(&Session{}))]", " [from db.Scopes(returns d.WithContext(ctx))]", " [from db.Scopes(identity, returns d.Session(&Session{}))]"}[entry]
+	op := genOp(kind, seed)
+	if s.prep != 0 {
+		s.warm = []int{0, 1, 1, 2, 3, 3}[c.R.Intn(6)]
+	}
+	if s.hk {
+		s.hstyle = c.R.Intn(len(hookStyles))
+		s.hform = c.R.Intn(len(hookForms))
+		if s.hstyle >= firstInheritingStyle {
+			s.hform = 0
+		}
+		s.hwho = []int{0, 0, 1, 1, 2, 3}[c.R.Intn(6)]
+		s.hmask = c.R.U64() | 2 // the first invocation writes: every such operation has a write of a hook in it
+		hookStyle, hookForm, hookWho, hookMask = s.hstyle, s.hform, s.hwho, s.hmask
+		defer func() { hookStyle, hookForm, hookWho, hookMask = 0, 0, 0, 0 }()
+	}
+	s.fresh = s.prep != 0 || (s.hk && styleUsesPrepare(s.hstyle))
+	x := run1{s: s, op: op}
+	if s.warm == 3 {
+		pool := txm.OpKinds[:16]
+		if s.hk {
+			pool = hkKinds
+		}
+		o := genOp(core.Pick(c.R, pool), c.R.U64())
+		x.other = &o
+		op.Desc += " [before it on the same handle, under Session{SkipDefaultTransaction:true}: " + o.Desc + "; Preload(Orders).Find(&users); Preload(Entries).Find(&accts)]"
+	}
+	if s.entry != 0 {
+		op.Desc += " [from " + entryNames[s.entry] + "]"
 		c.Inc("operations_entered_through_a_scope_that_returns_a_session")
 	}
+	if t := s.tag(); t != "" {
+		op.Desc += " " + t
+		kind += t
+	}
+	if s.prep != 0 {
+		c.Inc("operations_on_a_prepared_statement_handle")
+		c.Inc("statement_cache_history_" + warmNames[s.warm])
+	}
+	if s.hk {
+		c.Inc("operations_whose_hooks_write_through_a_derived_session")
+	}
 	c.Logf("OP %s", op.Desc)
+	execute := func(op txm.Op, failCall, failHook int) runResult { return x.execute(failCall, failHook, nil, false) }
+	executeCause := func(op txm.Op, failCall, failHook int, cause error) runResult {
+		return x.execute(failCall, failHook, cause, false)
+	}
+	executeCauseBare := func(op txm.Op, failCall, failHook int, cause error, bare bool) runResult {
+		return x.execute(failCall, failHook, cause, bare)
+	}
 
 	// fault-free reference run
 	ff := execute(op, 0, 0)
 	fcalls := faultable(ff.events)
 	K, J := len(fcalls), ff.hooks
+	if ff.histErr != nil {
+		// nothing was injected: what ran before the operation (same statements, on the same handle) failed
+		c.Violation("history/"+kind, map[string]interface{}{"op": op.Desc, "problems": []string{"before the operation, with no fault injected, the same handle failed: " + ff.histErr.Error()}})
+		return
+	}
 	var problems []string
 	if ff.err != nil {
 		problems = append(problems, "fault-free run returned "+ff.err.Error())
@@ -251,6 +420,10 @@ func run(c *core.Ctx) {
 
 	check := func(what string, r runResult, wantHook bool) {
 		var p []string
+		if r.histErr != nil {
+			c.Violation("history/"+kind, map[string]interface{}{"op": op.Desc, "problems": []string{"before the operation, with no fault injected, the same handle failed: " + r.histErr.Error()}})
+			return
+		}
 		if r.err == nil {
 			p = append(p, "result.Error is nil")
 		} else {
@@ -317,9 +490,9 @@ func run(c *core.Ctx) {
 		c.Inc("fault_at_hook_" + hk.Hook)
 	}
 	// crash points: the process dies at driver call k
-	if c.Thorough || c.Case%4 == 1 {
+	if (c.Thorough || c.Case%4 == 1) && !s.fresh {
 		for k := 1; k <= K; k++ {
-			after, opErr := executeCrash(c, op, k)
+			after, opErr := executeCrash(c, s, op, k)
 			c.Inc("crash_runs")
 			var p []string
 			if after != pre {
@@ -366,18 +539,23 @@ func diffDump(a, b string) string {
 var Engine = &core.Engine{
 	ID:    "C05",
 	Level: "fault_enumeration",
-	Rule: "operations = 16 kinds (Create of struct / slice / pointer slice, CreateInBatches, Save new / existing, FullSaveAssociations, Update, Updates struct / with associations / by condition, UpdateColumn, Delete, Select(assoc).Delete, Select(clause.Associations).Delete, Delete by condition) over seeded record graphs (belongs-to new/existing, has-one, has-many with nested has-many, many-to-many new/existing, polymorphic) with hooks on parent and child that write an audit row through tx; " +
-		"for each operation EVERY faultable driver call index (BEGIN, each prepare/exec/query, COMMIT) and EVERY hook invocation index is failed once (the failing step wraps a random error value: none, context.Canceled, context.DeadlineExceeded, sql.ErrTxDone, ErrRecordNotFound, ErrInvalidTransaction, sql.ErrNoRows), and (every 4th operation in quick, all in thorough) the process is made to die at EVERY driver call index (crash points); distinct = (operation kind, K, k, call kind, SQL verb) resp. (kind, J, j, hook, type); every faulted run is non-trivial (the fault-free run proved the call/hook is reached and the operation changes the database)",
+	Rule: "operations = 19 kinds of the first family (Create of struct / slice / pointer slice, CreateInBatches, Save new / existing, FullSaveAssociations, Update, Updates struct / with associations / by condition, UpdateColumn, Delete, Select(assoc).Delete, Select(clause.Associations).Delete, Delete by condition, Delete / Select(assoc).Delete / Updates with RETURNING) over seeded record graphs (belongs-to new/existing, has-one, has-many with nested has-many, many-to-many new/existing, polymorphic) with hooks on parent and child that write an audit row through tx, " +
+		"plus 8 kinds of a second family (Create struct / slice / in batches, Save, Update, Updates with has-many, Delete, Select(assoc).Delete on Acct-has-many-Entry) whose hooks write through a handle they DERIVE from tx (tx; Session{NewDB}; Session{NewDB,PrepareStmt}; Session{NewDB,Context}; Session{NewDB,SkipDefaultTransaction}; Session{NewDB,SkipHooks,PrepareStmt,Context}; Session{PrepareStmt}; WithContext; Session{}) by Exec / Create(&row) / Model().Create(map), in every hook, only in the parent's Before* hooks, only in the first hook, or in a random subset of the invocations; " +
+		"every kind is run from every entry handle (db.Session; three scopes that return a session; Session{CreateBatchSize:2}) x every handle mode (plain; Config{PrepareStmt:true}; db.Session(&Session{PrepareStmt:true})), and in the prepared-statement modes after a random history of the handle (nothing; the same operation under Session{SkipDefaultTransaction:true}, i.e. its SQL texts were prepared on the pool; the same operation in its default transaction; another operation and preloading reads under SkipDefaultTransaction) - every run of such a case starts from a new handle with that history; " +
+		"for each operation EVERY faultable driver call index (BEGIN, each prepare/exec/query/stmt-exec/stmt-query, the first step of each result set, COMMIT) and EVERY hook invocation index is failed once (the failing step wraps a random error value: none, context.Canceled, context.DeadlineExceeded, sql.ErrTxDone, ErrRecordNotFound, ErrInvalidTransaction, sql.ErrNoRows; failing hooks return it bare in half of the runs), and (every 4th operation in quick, all in thorough; plain handle mode) the process is made to die at EVERY driver call index (crash points); distinct = (operation kind + mode, K, k, call kind, SQL verb) resp. (kind + mode, J, j, hook, type); every faulted run is non-trivial (the fault-free run proved the call/hook is reached and the operation changes the database)",
 	Assumptions: []string{
-		"default settings only (implicit transaction on, no PrepareStmt)",
-		"faults are injected at BEGIN, statements and COMMIT (a failed COMMIT rolls the real transaction back, as a server would); not on ROLLBACK or row iteration",
+		"default transaction settings only (implicit transaction on: SkipDefaultTransaction is used only for what a handle ran BEFORE the operation under test); PrepareStmt (Config or Session) and Session{CreateBatchSize} are exercised as modes of the handle: they do not change what one write operation is, so the statement's all-or-nothing / Error / finished-transaction demands apply unchanged",
+		"a hook writes through tx or through a session derived from tx; sessions derived WITHOUT NewDB (Session{PrepareStmt:true}, WithContext, Session{}) inherit the running operation's statement (model, table, clauses), so only a raw Exec is issued on them: which table a Create/Model call on such a handle addresses is not fixed by the statement (tx.WithContext(ctx).Create(&Journal{}) inside a hook of Acct targets accts or panics in reflect; observed, not checked here)",
+		"nested Transaction blocks / SavePoints inside hooks are not generated here (C13); hooks do not read through the derived handle",
+		"faults are injected at BEGIN, statements, the first step of a result set and COMMIT (a failed COMMIT rolls the real transaction back, as a server would); not on ROLLBACK",
+		"in the prepared-statement modes every run (reference and faulted) uses a new database handle brought to the same history, because the statement cache is state of the handle; crash points are enumerated on the plain handle mode only",
 		"crash points are simulated in-process: at driver call k every connection is dropped without any clean-up statement (SQLite discards the open transaction), every later call fails, and the database file is reopened by a fresh handle; durability of SQLite itself under power loss is not the subject",
 	},
 	Cases: func(tier string) int {
 		if tier == "thorough" {
-			return 16 * 600
+			return 27 * 300
 		}
-		return 16 * 40
+		return 27 * 30
 	},
 	Batch:         func(string) int { return 8 },
 	Run:           run,
